@@ -10,6 +10,7 @@
 import SnowProofs.Lemmas.FlakeStep
 import SnowProofs.Lemmas.FlakeGeom
 import SnowProofs.Props.C05
+import SnowProofs.Props.C06
 
 namespace Snow.C01
 open Snow Num Snow.Flake Snow.FlakeLemmas
@@ -99,20 +100,6 @@ theorem direct_solves_eq12 (ph : Phys) (h : ph.Valid) (Tn : ℝ) (hT : Tn < ph.T
     ∀ x, ph.eq12 Tn x = 0 → 0 < x → x < 1 → x = sigmaDirect ph.consts Tn := by
   have := sigmaDirect_spec ph h Tn hT
   exact ⟨this.1, fun x h0 h1 h2 => this.2 x ⟨h0, h1, h2⟩⟩
-
-/-- the primary constants of a configuration as physical parameters -/
-def physOf (y : Primary ℝ) : Phys where
-  w_s := y.solid_fraction
-  cp_s := y.cp_s
-  cp_w := y.cp_w
-  cp_i := y.cp_i
-  lam := y.Dh
-  T_m := y.T_eq
-  k_f := y.k_f
-  M_s := y.M_s
-  rho := y.rho_l
-  V := y.length * y.width * y.height
-  b := y.b
 
 /-- **derived constants**: what `calculateDerived` hands to `run()` are the documented
 combinations `m = ρV`, `hl = m c_p`, `D = k_f/M_s·w_s/(1−w_s)`, `alpha = −m λ (1−w_s)`,
@@ -280,23 +267,88 @@ theorem initIce_case_insensitive (s t : String) (h : s.toLower = t.toLower) :
   unfold InitIce.ofString
   rw [h]
 
-/-! ### non-vacuity: the default configuration (5 wt.% sucrose, 1 cm³ cubic vials) -/
+/-! ### run level -/
 
-/-- primary constants of `snowConfig_default.yaml` -/
-noncomputable def defaultPrimary : Primary ℝ where
-  T_eq := 0
-  b := 29.3
-  rho_l := 1000
-  height := 0.01
-  length := 0.01
-  width := 0.01
-  cp_s := 1240
-  solid_fraction := 0.05
-  cp_w := 4187
-  cp_i := 2108
-  k_f := 1.853
-  M_s := 0.3423
-  Dh := 333550
+/-- "the new value `v'` of vial `i` (old value `v`) after step `k` of state `s` is one of the three
+transitions of the published model", with the net heat flow computed from the OLD state -/
+def IsTransition (ph : Phys) (p : Params ℝ) (isCN : Bool) (k : Nat) (Tsh : ℝ) (s : State ℝ) (i : Nat)
+    (v v' : Vial ℝ) : Prop :=
+  let q := heatFlow p (temps s) Tsh Tsh i
+  let tk := timeAt p.dt k
+  let m := vialMid p tk (anySolid s) v q
+  let nuc := nucleates p isCN m (p.kb.getD i 0) ((diceOf p k Tsh s).getD i 0)
+  (v.sigma = 0 ∧ nuc = false ∧ SpecLiquid ph p.dt q v.T v'.T v'.sigma) ∨
+  (v.sigma = 0 ∧ nuc = true ∧ ∃ Tn, SpecLiquid ph p.dt q v.T Tn 0 ∧ Tn < ph.TeqL ∧
+      SpecJumpSigma p.initIce ph Tn v'.sigma ∧ v'.T = ph.curve v'.sigma ∧
+      v'.TNuc = some Tn ∧ v'.tNuc = some (tk + p.dt)) ∨
+  (v.sigma ≠ 0 ∧ nuc = false ∧ SpecSolid ph p.dt q v.sigma v'.T v'.sigma)
+
+/-- **every recorded transition of a run is one of the three transitions** (PARTIAL — conditional
+on the monitored side condition, exactly as `C06.run_admissible_partial`): for a well-formed
+program inside the stable range, for every column `j` and every vial `i` of `runWith inp kCN`
+(in particular of `run inp`), the next column (the final state after the last step) is the step
+function applied to column `j`, and the vial's new value is a transition of the published model.
+The side hypothesis `hs` of `step_trichotomy` is discharged by C06's admissibility invariant
+(`0 ≤ σ < 1` in every column). -/
+theorem run_trichotomy_partial {ph : Phys} (inp : Inputs ℝ) (kCN : Nat) (hi : ℝ)
+    (hwf : Snow.C05.WF inp.oc inp.p.dt)
+    (st : Snow.C06.Stable ph inp.p inp.nVials inp.oc.stop hi)
+    (hT0 : inp.oc.start ≤ inp.T0) (hT0hi : inp.T0 ≤ hi) (hstart : inp.oc.start ≤ hi)
+    (hside : ∀ (j : Nat) (sj : State ℝ) (T : ℝ), (runWith inp kCN).traj[j]? = some sj →
+      (runWith inp kCN).Tshelf[j]? = some T → Snow.C06.SideCond ph inp.p sj T) :
+    ∀ (j : Nat) (sj : State ℝ) (T : ℝ), (runWith inp kCN).traj[j]? = some sj →
+      (runWith inp kCN).Tshelf[j]? = some T →
+      (j + 1 < (runWith inp kCN).traj.size →
+        (runWith inp kCN).traj[j + 1]? = some (step inp.p kCN j T sj)) ∧
+      (j + 1 = (runWith inp kCN).traj.size → (runWith inp kCN).final = step inp.p kCN j T sj) ∧
+      ∀ (i : Nat) (v : Vial ℝ), sj.vials[i]? = some v →
+        ∃ v', (step inp.p kCN j T sj).vials[i]? = some v' ∧
+          IsTransition ph inp.p (j == kCN) j T sj i v v' := by
+  intro j sj T hj hT
+  have hrs := run_steps inp kCN
+  simp only at hrs
+  refine ⟨fun h => hrs.2.2.2.1 j sj T hj hT h, ?_, ?_⟩
+  · intro h
+    have hpos : 0 < (runWith inp kCN).traj.size := by omega
+    have e : (runWith inp kCN).traj.size - 1 = j := by omega
+    have := hrs.2.2.2.2 sj T (by rw [e]; exact hj) (by rw [e]; exact hT) hpos
+    rw [e] at this; exact this
+  · intro i v hv
+    have hA := (Snow.C06.run_admissible_partial inp kCN hi hwf st hT0 hT0hi hstart hside j sj hj i v hv).1
+    have hs : v.sigma ≠ 0 → v.sigma ≠ 1 ∧ ph.bracket v.sigma ≠ 0 := by
+      intro h0
+      obtain ⟨h1, h2, _, _⟩ := Snow.C06.adm_solid hA h0
+      exact vial_trichotomy_admissible ph st.valid _ (le_of_lt h1) h2
+    exact step_trichotomy ph st.valid inp.p st.consts (ne_of_gt st.dt_pos) (j == kCN) j T sj i v hv hs
+
+/-- **a run on a declared shape uses the geometric heat flow**: when the parameters of the run
+are built by `Params.withShape` (which is what the driver does for the `arr`/`shape` the user
+configured, `Ops/Flake.lean`), then in every step of the run the new value of vial `i` is
+`vialStep`, whose net heat flow `heatFlow inp.p (temps s) T T i` is the sum over the geometric
+neighbours + free faces + shelf of `q_refines_shape`, and the inter-vial heat cancels
+(`heat_cancels_shape`) — the shape theorems are statements about runs. -/
+theorem run_uses_shape (inp : Inputs ℝ) (p0 : Params ℝ) (arr : Snow.Topology.Arr) (nx ny nz : Nat)
+    (hp : inp.p = p0.withShape arr nx ny nz) (kCN : Nat) :
+    ∀ (j : Nat) (sj : State ℝ) (T : ℝ), (runWith inp kCN).traj[j]? = some sj →
+      (runWith inp kCN).Tshelf[j]? = some T →
+      (∀ i, (step inp.p kCN j T sj).vials[i]? = (sj.vials[i]?).map (vialStep inp.p (j == kCN) j T sj i)) ∧
+      (∀ i, i < Snow.Topology.nTot nx ny nz →
+        heatFlow inp.p (temps sj) T T i =
+          (∑ j' ∈ (Finset.range (Snow.Topology.nTot nx ny nz)).filter
+              (fun j' => Snow.Topology.geomNbr arr (Snow.Topology.coords nx ny i)
+                (Snow.Topology.coords nx ny j') = true),
+              p0.kInt * p0.A * ((temps sj).getD j' 0 - (temps sj).getD i 0))
+          + ((Snow.Topology.maxNbr arr nz : ℝ) - (Snow.Topology.geomDeg arr nx ny nz i : ℝ))
+              * p0.kExt * p0.A * (T - (temps sj).getD i 0)
+          + p0.kShelf.getD i 0 * p0.A * (T - (temps sj).getD i 0)) ∧
+      ∑ i ∈ Finset.range (Snow.Topology.nTot nx ny nz), qInt inp.p (temps sj) i = 0 := by
+  intro j sj T _ _
+  refine ⟨fun i => ?_, fun i hi => ?_, ?_⟩
+  · simp only [step]; exact stepCN_getElem? inp.p (j == kCN) j T sj i
+  · rw [hp]; exact q_refines_shape p0 arr nx ny nz (temps sj) T T i hi
+  · rw [hp]; exact heat_cancels_shape p0 arr nx ny nz (temps sj)
+
+/-! ### non-vacuity: the default configuration (5 wt.% sucrose, 1 cm³ cubic vials) -/
 
 theorem nonvacuous :
     (physOf defaultPrimary).Valid ∧
@@ -306,8 +358,7 @@ theorem nonvacuous :
     SymNbrs [[1], [0]] 2 ∧
     -- an admissible ice fraction satisfies the side condition of `vial_trichotomy`
     ((1 / 2 : ℝ) ≠ 1 ∧ (physOf defaultPrimary).bracket (1 / 2) ≠ 0) := by
-  have hV : (physOf defaultPrimary).Valid := by
-    constructor <;> simp only [physOf, defaultPrimary] <;> norm_num
+  have hV : (physOf defaultPrimary).Valid := defaultPrimary_valid
   refine ⟨hV, ?_, ?_, ?_⟩
   · simp only [Phys.TeqL, Phys.D, physOf, defaultPrimary]; norm_num
   · constructor
